@@ -399,4 +399,4 @@ def run_one(c, w, p):
 def stages(tier):
     return [HypStage("sign", lambda t: cases(t), run_case,
                      {"quick": 250, "thorough": 6000},
-                     budget_s={"quick": 100, "thorough": 900})]
+                     budget_s={"quick": 300, "thorough": 900})]
